@@ -332,6 +332,21 @@ def rule_rbf_extract(chk, prog, tree):
             for y in ast.walk(n.slice):
                 if pf.is_self_attr(y):
                     sel = y.attr
+    if sel is not None:
+        # every definition of the input array that reaches the native call carries the column selection: equal
+        # column COUNTS do not make the selection the identity
+        inst0 = "RBFEvaluator.__call__: the inputs are gathered with self.%s on every path to the native call" % sel
+        bad0 = [st_ for st_, v_, k_ in er.assigns_to(callfn, xparam)
+                if v_ is not None and not any(pf.is_self_attr(y, sel) for y in ast.walk(v_))]
+        if bad0:
+            chk.violation("rbf-extract", XE, "RBFEvaluator.__call__", pf.src(bad0[0]).splitlines()[0][:100],
+                          bad0[0].lineno,
+                          "on this path `%s` reaches the native kernel without `[..., self.%s]`: the control points and "
+                          "exponents are in the selected/ordered feature space, so skipping the gather is only correct "
+                          "when the selection is exactly arange(n), which an equal column count does not establish"
+                          % (xparam, sel), instance=inst0)
+        else:
+            chk.ok("rbf-extract", inst0)
     inst = "RBFEvaluator: the selection index keeps the order of the kernel's length scales"
     if sel is None:
         chk.ok("rbf-extract", inst + " (no selection)", nontrivial=False)
@@ -1234,6 +1249,36 @@ def rule_grid_extent(chk, prog):
                     problems.append((d.ast, nm))
             if not ok_def and not problems:
                 problems.append((rets[0], nm))
+        # the number of grid points grows with the density: no int()/floor truncation may be applied to the
+        # extent/length-scale ratio before it is multiplied by the density
+        dens = next((p_ for p_ in er.param_names(fn) if "density" in p_), None)
+        if dens is not None:
+            trunc = set()
+            for n_ in pf.walk_no_nested(fn):
+                if isinstance(n_, ast.Assign) and len(n_.targets) == 1 and isinstance(n_.targets[0], ast.Name) \
+                        and isinstance(n_.value, ast.Call) and pf.call_name(n_.value) in (
+                            "int", "np.floor", "math.floor", "round", "np.round", "np.rint") \
+                        and dens not in er.names_in(n_.value):
+                    trunc.add(n_.targets[0].id)
+            inst3 = "%s: the grid size is truncated only after the density factor" % hname
+            bad3 = None
+            for n_ in pf.walk_no_nested(fn):
+                if isinstance(n_, ast.BinOp) and isinstance(n_.op, ast.Mult):
+                    sides = (n_.left, n_.right)
+                    for a_, b_ in (sides, sides[::-1]):
+                        if isinstance(a_, ast.Name) and a_.id == dens and (
+                                (isinstance(b_, ast.Name) and b_.id in trunc) or (
+                                    isinstance(b_, ast.Call) and pf.call_name(b_) in ("int", "np.floor", "math.floor")
+                                    and dens not in er.names_in(b_))):
+                            bad3 = n_
+            if bad3 is not None:
+                chk.violation("grid-extent", MT, hname, pf.src(bad3), bad3.lineno,
+                              "`%s` multiplies the density by a quantity that was already truncated to an integer: the "
+                              "number of grid points per length scale is no longer `%s` (a range shorter than one "
+                              "length scale gets the minimum grid whatever the density)" % (pf.src(bad3), dens),
+                              instance=inst3)
+            else:
+                chk.ok("grid-extent", inst3)
         if problems:
             st, nm = problems[0]
             chk.violation("grid-extent", MT, hname, pf.src(st).splitlines()[0][:110], st.lineno,
@@ -1443,6 +1488,16 @@ def rule_grad_pairing(chk, prog, tree):
                 chk.note("grad-pairing", "%s:%s" % (MU_C_REL, fn),
                          "line %d `%s`: %s. The function is exported but no evaluator class binds it, so this is "
                          "unreachable from Python today" % (line, text[:80], why))
+        for line, text, why in r.get("skips", []):
+            inst = "%s: no (sample, control point) pair is skipped on a condition on the sample" % fn
+            if live:
+                chk.violation("grad-pairing", MU_C_REL, fn, text, line,
+                              "%s: the value may vanish there, but its gradient with respect to the sample does not; "
+                              "the skip also drops the derivative stores" % why, instance=inst)
+            else:
+                chk.note("grad-pairing", "%s:%s" % (MU_C_REL, fn), "line %d: %s" % (line, why))
+        if not r.get("skips") and live:
+            chk.ok("grad-pairing", "%s: no (sample, control point) pair is skipped on a condition on the sample" % fn)
         inst = "%s: every exponent term of the accumulated factors is differentiated" % fn
         if r["missing"] and live:
             line, text, term = r["missing"][0]
@@ -1638,6 +1693,18 @@ def mutants(tree):
                "    elif isinstance(arbf, DiffAdditiveMixin):\n        for i in range(D.shape[1]):",
                "    elif isinstance(arbf, DiffAdditiveMixin):\n        assert srbf is None\n        for i in range(D.shape[1]):",
                expect="dispatch-total"),
+        Mutant("get_dim: range truncated to whole length scales before the density factor", MT,
+               "    ran = maxi - mini\n    ngrid = max(int(density * ran / length_scale) + 1, 3)",
+               "    nscale = int((maxi - mini) / length_scale)\n    ngrid = max(int(density * nscale) + 1, 3)",
+               expect="grid-extent"),
+        Mutant("RBFEvaluator.__call__: gather skipped when the column counts agree", XE,
+               "        X1 = np.ascontiguousarray(X1[..., self._indexes])\n",
+               "        if self._nfeat == full_shape[-1]:\n            X1 = np.ascontiguousarray(X1)\n        else:\n            X1 = np.ascontiguousarray(X1[..., self._indexes])\n",
+               expect="rbf-extract"),
+        Mutant("antisym kernel: pair skipped when the first two sample features coincide", MU_C_REL,
+               "            double fac = _evaluate_se(xi + 2, xc + 2, exps + 1, nfeat - 2);",
+               "            if (xi[0] == xi[1] || xc[0] == xc[1]) {\n                continue;\n            }\n            double fac = _evaluate_se(xi + 2, xc + 2, exps + 1, nfeat - 2);",
+               expect="grad-pairing"),
         Mutant("mapper: scale shifted before the constant term is formed", MT, fn=_shift_scale_early,
                expect="scale-order"),
         Mutant("arbf_args: order-2 block uses the order-1 scale", KN,
